@@ -4,129 +4,180 @@ from props import predicate, kv
 
 CONFIG = {
     "design_ref": "4.16",
-    "technique": "Lean 4 proof of a cost semantics (call depth of the program text, both the self-recursive and the looped "
-                 "formulation of every anchored site) over a recursion table regenerated from /repo's source text; the "
+    "technique": "Lean 4 proof of a cost semantics (call depth of the program text) for every anchored recursion of /repo - "
+                 "both the self-recursive and the looped formulation of the data loops, an instrumented model of every "
+                 "function that recurses on nesting - over a recursion table regenerated from /repo's source text; the "
                  "frame-per-call assumption is validated by child processes running the real operations on a 2 MiB stack "
-                 "(abort / completion, stack high-water mark at two sizes)",
-    "level_text": "Proof of the cost model, for all inputs: a site whose text calls itself on the rest of the data "
-                  "(`return self.next()` in the five inmem matching iterators, quoted_string, graph_rec, populate_list, "
-                  "mark_list_node) has call depth = rows skipped / escaped characters / graph names / list cells "
-                  "(next_rec_depth_exact, ..._depth_linear) - which refutes the property's bound for exactly the sites the "
-                  "regenerated table classifies selfRecursiveOnData; the looped formulation has depth 1 and the same results "
-                  "(..._rec_eq_..._loop); sites recursing only on nesting are bounded by nesting / log2 / number of query "
-                  "patterns (term_depth_bounded, nq_depth_bounded, find_subject_depth_bounded, bgp_rec_depth_bounded); "
-                  "table_verdict / table_refuted / table_status lift this to the table regenerated from /repo on every run. "
-                  "Differential (not proof): that one active call costs one stack frame - every site is run for real in a "
-                  "child process on std::thread::Builder::stack_size(2 MiB) at 2*10^5 (quick) / up to 10^6 (thorough) elements, "
-                  "dev profile (release additionally in the thorough tier), and the measured stack growth between 100 and "
-                  "1000 elements must equal the model's (constant vs linear).",
+                 "(stack overflow / completion; stack high-water mark measured by stack painting at three sizes)",
+    "level_text": "Proof of the cost model, for all inputs: (1) a site whose text calls itself on the rest of the data "
+                  "(`return self.next()` in the five inmem matching iterators and DedupIterator, quoted_string, graph_rec, "
+                  "populate_list, mark_list_node) has call depth = rows skipped / escaped characters / graph names / list "
+                  "cells (next_rec_depth_exact, ..._depth_linear) - which refutes the property's bound for exactly the sites "
+                  "the regenerated table classifies selfRecursiveOnData (none today: table_all_bounded is decided on the "
+                  "table of every run); the looped formulation has depth 1 and the same results (..._rec_eq_..._loop). "
+                  "(2) every function that recurses on nesting has an instrumented model whose depth is bounded by the "
+                  "nesting alone, for strings / row sets / node sets / graph-name sets / lists of ANY size: Term::cmp/eq/hash "
+                  "(equal to C02's termCmp/termEq/termHash), c14n nq, N-Triples write_term~write_triple, cmp_bindings_with "
+                  "under any sort (order_by_depth_bounded), bgp_rec, jsonify (<= 2), populate_list~convert_rdf_object, "
+                  "select~operators for any number of named graphs, find_subject (log2), and the prettifier "
+                  "(pretty_depth_bounded: <= 1 + 6 * nesting of quoted triples, collections, annotations AND anonymous "
+                  "blank nodes). (3) table_verdict / table_status / all_bounded lift this to the harness families of every "
+                  "size through those general theorems. FINDING, kernel-checked: the prettifier is NOT bounded by the nesting "
+                  "of the data (pretty_full_refuted: a chain of n blank nodes = n plain statements needs 5n+1 nested calls); "
+                  "pretty_chain_status follows the generated prettyBnodeNestingCap. "
+                  "Differential (not proof): that one active call costs one stack frame - 59 sites run the real operations "
+                  "in child processes on std::thread::Builder::stack_size(2 MiB) at 2*10^5 (quick) / 10^3..10^6 (thorough) "
+                  "elements, dev profile (release additionally in the thorough tier); the stack high-water mark at 100, 400 "
+                  "and 1600 elements must show the model's growth (constant vs >= 16 bytes per element over both increments).",
     "level_note": "Assumed, validated empirically: frame-per-call in unoptimised builds (>= 16 bytes per call); optimiser "
                   "behaviour in release is observed, not modelled. The models are simplified copies (iterator = staged "
-                  "matcher caches over index rows; select/convert_rdf_object abstracted as functions). The recursion table "
-                  "is read off the source text by tools/extractors/c16.py (fail-closed on any self or mutual recursion in "
-                  "the anchored files that is not transcribed). Pretty Turtle is quadratic in time, so its sizes are capped "
-                  "at 1500 (quick) / 4000 (thorough). Recursion inside third-party crates (rio, json-syntax, spargebra) is "
-                  "only observed through the child processes. Known findings: 8 (five iterators, quoted_string, graph_rec, "
-                  "populate_list+mark_list_node).",
+                  "matcher caches over index rows; select/convert_rdf_object/ORDER BY evaluation abstracted as functions; the "
+                  "prettifier sees the tree its classification passes produce). A self call that the extractor does not "
+                  "know is modelled as one call per element (assumedLinear) - a convention, only reachable through a "
+                  "selfRecursiveOnData row. The recursion table is read off the source text by tools/extractors/c16.py "
+                  "(fail-closed on any self or mutual recursion in the anchored files that is not transcribed, and on a "
+                  "self-calling `fn next` in any workspace crate, UFCS spellings included). Operations with quadratic running "
+                  "time (pretty Turtle/TriG, multi-constant matchers, JSON-LD named-graph/list-seed bookkeeping, json-ld "
+                  "parsing) are capped in size (1500..40000 quick); growth probe and escalation still apply to them. "
+                  "Recursion inside third-party crates (rio, json-ld, json-syntax, spargebra, quick-xml) is only observed "
+                  "through the child processes. A child that exceeds its CPU-time limit or dies of anything but a stack "
+                  "overflow is a model/implementation difference (`completed`), never a failing input. Not covered: RDFC-1.0 "
+                  "hash_n_degree_quads on long blank node chains (depth limit scales with the dataset: overflows at ~430 "
+                  "links in dev; not an anchored file, C05/C06 own the algorithm), sophia_resource, SPARQL query nesting.",
     "tables": ["recursion_sites"],
     "lean_targets": ["SophiaProofs.Props.C16", "SophiaProofs.Audit.C16"],
     "theorems": [
         "next_rec_eq_next_loop", "next_loop_depth_bounded", "next_rec_depth_exact", "next_rec_depth_linear",
-        "quoted_rec_eq_loop", "quoted_loop_depth_bounded", "quoted_rec_depth_linear",
-        "graph_rec_eq_graph_loop", "graph_loop_depth_bounded", "graph_rec_depth_exact", "graph_rec_depth_linear",
-        "populate_rec_eq_loop", "populate_loop_depth_bounded", "populate_rec_depth_exact", "populate_rec_depth_linear",
-        "mark_rec_eq_loop", "mark_loop_depth_bounded", "mark_rec_depth_linear",
-        "term_depth_bounded", "nq_depth_bounded", "find_subject_depth_bounded", "bgp_rec_depth_bounded",
-        "table_names_known", "table_verdict", "table_refuted", "table_status",
+        "quoted_rec_eq_loop", "quoted_rec_depth_linear", "graph_rec_eq_graph_loop", "graph_rec_depth_exact",
+        "graph_rec_depth_linear", "populate_rec_eq_loop", "populate_rec_depth_exact",
+        "populate_rec_depth_linear", "mark_rec_eq_loop", "mark_rec_depth_linear", "dedup_rec_eq_loop",
+        "dedup_loop_depth_bounded", "dedup_rec_depth_linear", "term_cmp_fst", "term_cmp_depth_bounded",
+        "term_eq_fst", "term_eq_depth_bounded", "term_hash_fst", "term_hash_depth_bounded", "nq_depth_bounded",
+        "nt_write_term_depth_bounded", "find_subject_depth_bounded", "bgp_rec_depth_bounded",
+        "cmp_bindings_depth_bounded", "order_by_depth_bounded", "jsonify_depth_bounded",
+        "into_json_depth_bounded", "populate_convert_depth_bounded", "select_depth_bounded",
+        "pretty_depth_bounded", "pretty_full_refuted", "pretty_depth_bounded_partial", "pretty_chain_status",
+        "table_names_known", "table_all_bounded", "table_verdict", "table_refuted", "table_status",
+        "all_bounded",
     ],
     "native_ok": [],
     "trivial_re": r"^site=\S+$",
-    "rule": "one request per (site, size, profile): 19 sites (each of the five matching iterators with the closure matcher "
-            "on the first and on the last non-constant position, N-Triples literal, RDFC-1.0 literal, GRAPH ?g, two-pattern "
-            "BGP, JSON-LD list, pretty-Turtle list / subjects, N-Triples / Turtle parsing + insertion); sizes 2*10^5 (quick), "
-            "10^3..10^6 (thorough, + release profile at 2*10^5 and 10^6); each request = 3 child processes (full size; probe "
-            "sizes 100 and 1000); non-trivial = a `run` request (the `site` requests are answered by the model only); "
-            "distinct = distinct request lines",
+    "rule": "one request per (site, size, profile): 59 sites = every matching iterator of inmem with the closure matcher on "
+            "every non-constant position (first / middle / last / graph name), the Fast* index orders, std Filter, "
+            "n-constant slice matchers, remove_matching / retain_matching, N-Triples / N-Quads / Turtle / TriG / RDF-XML / "
+            "JSON-LD serialisation (streaming and pretty; literals with n escapes; n statements / objects / subjects / "
+            "named graphs / list items / lists / chained blank nodes), RDFC-1.0, SPARQL (GRAPH ?g, BGP, ORDER BY, FILTER, "
+            "UNION+BIND+DISTINCT+OFFSET), parsing + insertion for N-Triples / N-Quads / Turtle / TriG / RDF-XML / JSON-LD; "
+            "sizes 2*10^5 (quick), 10^3..10^6 (thorough, + release profile at 2*10^5 and 10^6); each request = 1 child at "
+            "the full size + 3 probe children (100, 400, 1600; cached per site and profile) + 1 escalation child when "
+            "the probes grow linearly; non-trivial = a `run` request (the `site` requests are answered by the model "
+            "only); distinct = distinct request lines",
     "trusted_base": ["tools/extractors/c16.py: call-graph reading of Rust source text (self calls `self.f(`, `Self::f(`, "
-                     "`Term::f(`, bare `f(`; transcribed call expressions)",
-                     "Linux mincore(2)/madvise(2) for the stack high-water mark; process exit status for abort detection"],
+                     "`Term::f(`, bare `f(`, `Iterator::f(self`, `<.. as ..>::f(self`, `(*self).f(`, `self.by_ref().f(`; "
+                     "transcribed call expressions)",
+                     "stack painting (memset of the unused stack, scan for the lowest overwritten word); process exit "
+                     "status + Rust's stack-overflow message for abort detection; RLIMIT_CPU for the time limit"],
     "assumptions": ["one active call = one machine stack frame of >= 16 bytes in unoptimised (dev) builds "
                     "(validated per site: predicted abort / linear growth must be observed)",
                     "the simplified models' recursion variable is the one of the Rust function "
                     "(validated per site through class -> growth)"],
-    "exec_timeout": 3400,
+    # the harness bounds its own running time (CPU limits per child, VH_C16_DEADLINE); this is only a backstop
+    "exec_timeout": 6 * 3600,
     "search_rounds": 1,
 }
 
 
-def _abort_at(failure, prefixes, fn=None, not_fn=None):
-    """the child process of that very site died of a stack overflow; `fn` (a function name of the
-    generated table) must be among the data-recursive functions the model lists for the site (`rec=`),
-    `not_fn` must not"""
+def _site_of(failure):
     toks = failure["request"].split()
     if len(toks) != 4 or toks[0] != "run":
-        return False
-    site = toks[1]
-    if not any(site == p or site.startswith(p + "_") for p in prefixes):
+        return None
+    return toks[1]
+
+
+def _overflow_at(failure, prefixes, fn=None, not_fn=None):
+    """the child process of that very site died of a stack overflow, or its stack grows per element; `fn` (a
+    function name of the generated table) must be among the data-recursive functions the model lists for the site
+    (`rec=`), `not_fn` must not"""
+    site = _site_of(failure)
+    if site is None or not any(site == p or site.startswith(p + "_") for p in prefixes):
         return False
     impl = kv(failure["impl"])
-    # only the stack overflow of that very site: the child died (SIGSEGV/SIGABRT), nothing else
-    if impl.get("outcome") != "abort" or impl.get("FAIL.stack_overflow") != site:
+    if impl.get("FAIL.stack_overflow") != site and impl.get("FAIL.stack_growth") != site:
         return False
     rec = kv(failure["model"]).get("rec", "").split(",")
     if fn is not None and fn not in rec:
         return False
     if not_fn is not None and not_fn in rec:
         return False
-    return failure.get("field") in ("FAIL.stack_overflow", "outcome")
+    return failure.get("field") in ("FAIL.stack_overflow", "FAIL.stack_growth", "outcome")
 
 
 @predicate
 def c16_iter_gspo(failure):
     """GspoMatchingIterator::next: `return self.next()` per skipped row"""
     # also what is left of `GRAPH ?g` once graph_rec is repaired: `graph` scans with the empty graph matcher
-    return (_abort_at(failure, ["iter_gspo"], fn="GspoMatchingIterator::next")
-            or _abort_at(failure, ["sparql_graph"], fn="GspoMatchingIterator::next", not_fn="exec::graph_rec"))
+    return (_overflow_at(failure, ["iter_gspo"], fn="GspoMatchingIterator::next")
+            or _overflow_at(failure, ["sparql_graph"], fn="GspoMatchingIterator::next", not_fn="exec::graph_rec"))
 
 
 @predicate
 def c16_iter_bcd(failure):
     """BcdMatchingIterator::next"""
-    return _abort_at(failure, ["iter_bcd"], fn="BcdMatchingIterator::next")
+    return _overflow_at(failure, ["iter_bcd"], fn="BcdMatchingIterator::next")
 
 
 @predicate
 def c16_iter_cd(failure):
     """CdMatchingIterator::next"""
-    return _abort_at(failure, ["iter_cd"], fn="CdMatchingIterator::next")
+    return _overflow_at(failure, ["iter_cd"], fn="CdMatchingIterator::next")
 
 
 @predicate
 def c16_iter_spo(failure):
     """SpoMatchingIterator::next"""
-    return _abort_at(failure, ["iter_spo"], fn="SpoMatchingIterator::next")
+    return _overflow_at(failure, ["iter_spo"], fn="SpoMatchingIterator::next")
 
 
 @predicate
 def c16_iter_bc(failure):
     """BcMatchingIterator::next"""
-    return _abort_at(failure, ["iter_bc"], fn="BcMatchingIterator::next")
+    return _overflow_at(failure, ["iter_bc"], fn="BcMatchingIterator::next")
 
 
 @predicate
 def c16_quoted_string(failure):
     """nt.rs quoted_string recurses per escaped character"""
-    return _abort_at(failure, ["nt_literal"], fn="nt::quoted_string")
+    return _overflow_at(failure, ["nt_literal"], fn="nt::quoted_string")
 
 
 @predicate
 def c16_graph_rec(failure):
     """exec.rs graph_rec recurses per graph name"""
-    return _abort_at(failure, ["sparql_graph"], fn="exec::graph_rec")
+    return _overflow_at(failure, ["sparql_graph"], fn="exec::graph_rec")
 
 
 @predicate
 def c16_jsonld_list(failure):
     """engine.rs mark_list_node / populate_list recurse per list cell"""
-    return (_abort_at(failure, ["jsonld_list"], fn="engine::mark_list_node")
-            or _abort_at(failure, ["jsonld_list"], fn="engine::populate_list"))
+    return (_overflow_at(failure, ["jsonld_list"], fn="engine::mark_list_node")
+            or _overflow_at(failure, ["jsonld_list"], fn="engine::populate_list"))
+
+
+@predicate
+def c16_pretty_bnode_chain(failure):
+    """_pretty.rs nests anonymous blank nodes without limit: only the chain site, only while the table has no data
+    recursion behind that site (a recursive DedupIterator / find_subject is a different failure) and the model -
+    i.e. the regenerated prettyBnodeNestingCap = none - itself says that the depth follows the chain"""
+    if _site_of(failure) != "turtle_chain":
+        return False
+    impl, model = kv(failure["impl"]), kv(failure["model"])
+    if model.get("rec") != "-" or model.get("class") != "recursiveOnNesting":
+        return False
+    try:
+        if int(model["depth3"]) < int(model["depth1"]) + 1500:
+            return False
+    except (KeyError, ValueError):
+        return False
+    if impl.get("FAIL.stack_overflow") != "turtle_chain" and impl.get("FAIL.stack_growth") != "turtle_chain":
+        return False
+    return failure.get("field") in ("FAIL.stack_overflow", "FAIL.stack_growth", "outcome")
